@@ -2105,6 +2105,13 @@ pick:
 	op = _dispatch_stream_pick_next_operation(stream, stream->op);
 	if (!op) {
 		_dispatch_debug("no operation found: stream %p", stream);
+		// An earlier invocation may have armed the source for an operation
+		// that has been served since: an idle stream's source is suspended
+		// (the teardown resumes it)
+		if (stream->source_running) {
+			dispatch_suspend(stream->source);
+			stream->source_running = false;
+		}
 		return;
 	}
 	int err = _dispatch_io_get_error(op, NULL, true);
@@ -2142,6 +2149,11 @@ pick:
 		if (_dispatch_stream_operation_avail(stream)) {
 			dispatch_async_f(stream->dq, stream->dq,
 					_dispatch_stream_queue_handler);
+		} else if (stream->source_running) {
+			// the last operation was served by this invocation while the
+			// source was armed by another one
+			dispatch_suspend(stream->source);
+			stream->source_running = false;
 		}
 		break;
 	case DISPATCH_OP_COMPLETE_RESUME:
